@@ -206,7 +206,8 @@ CHECKS = {
              "VocabularyOnly at every level, with the known leaks excluded and required to violate it otherwise. Every case "
              "is replayed: the real *_schema(T, version=V) is validated on the datum by jsonschema's Draft7 / Draft2019-09 "
              "validators (OpenAPI 3.0 through its documented mapping), compared with the real 2020-12 schema and with the "
-             "model; vocabulary and reference prefixes are scanned at every level.",
+             "model; vocabulary and reference prefixes are scanned at every level, also in the definitions that "
+             "definitions_schema merges for a class listed on both the deserialization and the serialization side.",
         design_ref="7 C18", technique="TLA+ dialect conversion + per-dialect semantics, TLC invariants, replay with per-draft validators",
         note="OpenAPI 3.0 has no executable oracle: validated through the mapping written in harness/props/c18.py:oas30_to_2020."),
     "C19": dict(
